@@ -299,5 +299,5 @@ def finish_coverage(cov, counters, tier):
 
 
 def replay(env, rep):
-    print("C03 replays re-execute the recorded program source; hostile data are re-created from their tagged rendering only approximately.")
-    print(json.dumps(rep["features"]))
+    from vf.replay import generic
+    generic(env, rep)
